@@ -144,7 +144,7 @@ def shards(tier):
                 continue
             for reconnect in (False, True):
                 for first in EVENTS:
-                    out.append(('keepalive', {'profile': profile, 'keepalive': k, 'm': 6 if T else 4, 'reconnect': reconnect, 'first': first}))
+                    out.append(('keepalive', {'profile': profile, 'keepalive': k, 'm': 5 if T else 4, 'reconnect': reconnect, 'first': first}))
             if profile == 'pubsubs' and k in (1, 5):
                 for first in EVENTS:
                     out.append(('keepalive', {'profile': profile, 'keepalive': k, 'm': 4 if T else 3, 'reconnect': False, 'first': first, 'other': True}))
@@ -154,7 +154,7 @@ def shards(tier):
 META = {
     'rule': 'keepalive k concrete, virtual time symbolic: after CONNACK m rounds of advance(dt symbolic in [0,3k]) followed by one of {nothing, PINGRESP, two PINGRESP, '
             'QoS 0 publish, inbound QoS 0 PUBLISH, loss (+ reconnect)}; the real LoopingCall runs on the real Clock; obligations are comparisons between symbolic instants',
-    'bounds': {'quick': 'k in {0, 1, 5, 60}; m=4 rounds (m=3 with a second protocol of the same factory connected to another address, keepalive off); pubsubs (all k), publisher and subscriber (k in {0,5})', 'thorough': 'k in {0, 1, 2, 5, 60, 65535}; m=6'},
+    'bounds': {'quick': 'k in {0, 1, 5, 60}; m=4 rounds (m=3 with a second protocol of the same factory connected to another address, keepalive off); pubsubs (all k), publisher and subscriber (k in {0,5})', 'thorough': 'k in {0, 1, 2, 5, 60, 65535}; m=5'},
     'stubs': ['fake transport with asynchronous loss', 'twisted task.Clock and the real twisted LoopingCall bound to it', 'jitter: fixed sequence'],
     'outside': ['keepalive values other than the listed ones (the loop arithmetic t mod k is linear only for concrete k)', 'advances longer than 3k in one step', 'float rounding'],
     'assumptions': ['timers never fire early; an advance may carry time past a due instant (late firing), so "at least every k seconds" is checked as: whenever an '
